@@ -89,8 +89,136 @@ def _or_names(expr):
     raise ValueError(f"unexpected operand in mask union: {ast.unparse(expr)}")
 
 
+# ---------------------------------------------------------------- normalised function bodies (tie pass 7)
+_KEEP = {"np", "range", "len", "isinstance", "type", "int", "enumerate", "ValueError", "TypeError", "IndexError",
+         "BondList", "AtomArray", "AtomArrayStack", "find_connected", "True", "False", "None"}
+
+
+class _Binder(ast.NodeVisitor):
+    """locally bound names (assignment / loop / comprehension targets) in source order; parameters keep their names"""
+
+    def __init__(self, params):
+        self.params, self.order = set(params), []
+
+    def _bind(self, t):
+        for n in ast.walk(t):
+            if isinstance(n, ast.Name) and n.id not in self.params and n.id not in self.order:
+                self.order.append(n.id)
+
+    def visit_Assign(self, node):
+        for t in node.targets:
+            if isinstance(t, (ast.Name, ast.Tuple)):
+                self._bind(t)
+        self.generic_visit(node)
+
+    def visit_For(self, node):
+        self._bind(node.target)
+        self.generic_visit(node)
+
+    def visit_Global(self, node):
+        raise ValueError("global statement in a modelled function: " + ", ".join(node.names))
+
+
+class _Norm(ast.NodeTransformer):
+    def __init__(self, ren):
+        self.ren = ren
+
+    def visit_Name(self, node):
+        return ast.copy_location(ast.Name(id=self.ren.get(node.id, node.id), ctx=node.ctx), node)
+
+    def visit_Raise(self, node):              # messages are not behaviour the property speaks about
+        exc = node.exc
+        cls = exc.func if isinstance(exc, ast.Call) else exc
+        return ast.copy_location(ast.Raise(exc=cls, cause=None), node)
+
+    def visit_Call(self, node):
+        self.generic_visit(node)
+        if isinstance(node.func, ast.Attribute) and node.func.attr in ("any", "all") and not node.args and not node.keywords:
+            return ast.Call(func=ast.Attribute(value=ast.Name(id="np", ctx=ast.Load()), attr=node.func.attr, ctx=ast.Load()),
+                            args=[node.func.value], keywords=[])
+        return node
+
+    def visit_BinOp(self, node):
+        self.generic_visit(node)
+        if isinstance(node.op, ast.BitOr):       # `a | b | c` of masks: operand order is irrelevant
+            ops = []
+
+            def flat(x):
+                if isinstance(x, ast.BinOp) and isinstance(x.op, ast.BitOr):
+                    flat(x.left)
+                    flat(x.right)
+                else:
+                    ops.append(x)
+            flat(node)
+            ops.sort(key=ast.unparse)
+            out = ops[0]
+            for o in ops[1:]:
+                out = ast.BinOp(left=out, op=ast.BitOr(), right=o)
+            return out
+        return node
+
+
+def _norm_body(fn):
+    """The statements of a function, docstring / comments / messages dropped, local names alpha-renamed (v0, v1, ...),
+    `x.any()` written `np.any(x)`, operands of `|` sorted.  One string per source line of the normal form."""
+    params = [a.arg for a in fn.args.posonlyargs + fn.args.args + fn.args.kwonlyargs]
+    body = list(fn.body)
+    if body and isinstance(body[0], ast.Expr) and isinstance(body[0].value, ast.Constant) and isinstance(body[0].value.value, str):
+        body = body[1:]
+    b = _Binder(params)
+    for st in body:
+        b.visit(st)
+    ren = {n: f"v{k}" for k, n in enumerate(b.order) if n not in _KEEP}
+    lines = []
+    for st in body:
+        st = ast.fix_missing_locations(_Norm(ren).visit(st))
+        lines += ast.unparse(st).split("\n")
+    return lines
+
+
+def _signature(fn):
+    return fn.name + "(" + ast.unparse(fn.args) + ")"
+
+
+def _lean_str(x):
+    return '"' + x.replace("\\", "\\\\").replace('"', '\\"') + '"'
+
+
 def _lean_strs(xs):
-    return "[" + ", ".join('"' + x + '"' for x in xs) + "]"
+    return "[" + ", ".join(_lean_str(x) for x in xs) + "]"
+
+
+def _pyx_function(text, name):
+    """code lines of a top-level def/cdef of a .pyx: docstring, comments, blank lines removed, whitespace collapsed"""
+    import re
+    m = re.search(r"^(?:def|cdef)\s+" + re.escape(name) + r"\(.*?(?=^(?:def|cdef|class|@|cpdef)\s|\Z)", text, re.S | re.M)
+    if not m:
+        raise ValueError(f"bonds.pyx: {name} not found")
+    code = re.sub(r'"""(.*?)"""', "", m.group(0), flags=re.S)
+    out = []
+    for line in code.splitlines():
+        line = line.split("#")[0].rstrip()
+        if line.strip():
+            out.append(re.sub(r"\s+", " ", line.strip()))
+    return out
+
+
+def _pyx_method(text, cls, name):
+    import re
+    m = re.search(r"^class\s+" + cls + r"\b.*?(?=^class\s|\Z)", text, re.S | re.M)
+    if not m:
+        raise ValueError(f"bonds.pyx: class {cls} not found")
+    c = m.group(0)
+    m2 = re.search(r"^    def\s+" + re.escape(name) + r"\(.*?(?=^    (?:def|cdef|@)\s|\Z)", c, re.S | re.M)
+    if not m2:
+        raise ValueError(f"bonds.pyx: {cls}.{name} not found")
+    code = re.sub(r'"""(.*?)"""', "", m2.group(0), flags=re.S)
+    out = []
+    for line in code.splitlines():
+        line = line.split("#")[0].rstrip()
+        if line.strip():
+            out.append(re.sub(r"\s+", " ", line.strip()))
+    return out
 
 
 def gen_lean():
@@ -217,6 +345,62 @@ def gen_lean():
                 raise ValueError("find_connected: `<table>, <types> = bond_list.get_all_bonds()` not found")
             if g.group(2) != "_" and _re.search(r"\b" + g.group(2) + r"\b", code[g.end():]):
                 pyx_refs.append("find_connected:uses-type-table:" + g.group(2))
+    # ---- tie pass 7: signatures (defaults), normalised bodies, constants of the starts construction
+    sigs, bodies = [], []
+    PUB = {"residues.py": (res, ["get_residue_starts", "apply_residue_wise", "spread_residue_wise", "get_residue_masks",
+                                  "get_residue_starts_for", "get_residue_positions", "get_residues", "get_residue_count", "residue_iter"]),
+           "chains.py": (cha, ["get_chain_starts", "apply_chain_wise", "spread_chain_wise", "get_chain_masks",
+                                "get_chain_starts_for", "get_chain_positions", "get_chains", "get_chain_count", "chain_iter"]),
+           "segments.py": (seg, ["apply_segment_wise", "spread_segment_wise", "get_segment_masks", "get_segment_starts_for",
+                                 "get_segment_positions", "segment_iter"]),
+           "molecules.py": (mol, ["get_molecule_indices", "get_molecule_masks", "molecule_iter"])}
+    for fn_file, (tree, names) in PUB.items():
+        for name in names:
+            fdef = _func(tree, name)
+            sigs.append(_signature(fdef))
+            bodies.append((name, _norm_body(fdef)))
+        extra = [n.name for n in tree.body if isinstance(n, ast.FunctionDef) and n.name not in names]
+        if extra:
+            raise ValueError(f"{fn_file}: functions outside the modelled set: {extra}")
+        for node in tree.body:        # module-level state (caches, tables) next to the modelled functions
+            if isinstance(node, (ast.Assign, ast.AnnAssign)):
+                tg = node.targets[0] if isinstance(node, ast.Assign) else node.target
+                if not (isinstance(tg, ast.Name) and tg.id.startswith("__")):
+                    raise ValueError(f"{fn_file}: module-level assignment {ast.unparse(node)[:60]}")
+    m = _re.search(r"^def find_connected\((.*?)\):", pyx, _re.M)
+    if not m:
+        raise ValueError("bonds.pyx: signature of find_connected not found")
+    sigs.append("find_connected(" + _re.sub(r"\s+", " ", m.group(1)) + ")")
+    pyx_bodies = [("find_connected", _pyx_function(pyx, "find_connected")), ("_find_connected", _pyx_function(pyx, "_find_connected")),
+                  ("BondList.get_all_bonds", _pyx_method(pyx, "BondList", "get_all_bonds"))]
+    # constants of `np.concatenate(([0], np.where(mask)[0] + 1, [array.array_length()]))`
+    builds = []
+    for tree, name in ((res, "get_residue_starts"), (cha, "get_chain_starts")):
+        fdef = _func(tree, name)
+        off = idx0 = None
+        for node in ast.walk(fdef):
+            if isinstance(node, ast.Assign) and isinstance(node.value, ast.BinOp) and isinstance(node.value.op, ast.Add) \
+                    and isinstance(node.value.left, ast.Subscript) and ast.unparse(node.value.left.value).startswith("np.where("):
+                off = ast.literal_eval(node.value.right)
+                idx0 = ast.literal_eval(node.value.left.slice)
+                svar = node.targets[0].id
+        if off is None:
+            raise ValueError(f"{name}: `np.where(mask)[k] + c` not found")
+        cats = []
+        for node in ast.walk(fdef):
+            if isinstance(node, ast.Return) and isinstance(node.value, ast.Call) and ast.unparse(node.value.func) == "np.concatenate":
+                tup = node.value.args[0]
+                cats.append([("S" if ast.unparse(e) == svar else ast.unparse(e)) for e in tup.elts])
+        if sorted(map(len, cats)) != [2, 3]:
+            raise ValueError(f"{name}: the two np.concatenate returns not found")
+        with_stop = next(c for c in cats if len(c) == 3)
+        without = next(c for c in cats if len(c) == 2)
+        if with_stop[:2] != without or without[1] != "S":
+            raise ValueError(f"{name}: unexpected concatenation {cats}")
+        first = ast.literal_eval(without[0])
+        if not (isinstance(first, list) and len(first) == 1):
+            raise ValueError(f"{name}: unexpected first element {without[0]}")
+        builds.append((name, first[0], idx0, off, with_stop[2]))
     body = [
         "/- REGENERATED on every run by harness/props/c17.py from structure/residues.py, chains.py, segments.py. Do not edit. -/",
         "namespace BiotiteModel.Gen.C17",
@@ -236,6 +420,17 @@ def gen_lean():
         f"def moleculeBondTypeRefs : List String := {_lean_strs(type_refs)}",
         "/-- every mention of bond types in bonds.pyx find_connected / _find_connected. -/",
         f"def connectedBondTypeRefs : List String := {_lean_strs(pyx_refs)}",
+        "/-- signatures (parameter order and default values) of the anchored public functions. -/",
+        f"def signatures : List String := {_lean_strs(sigs)}",
+        "/-- (function, first start, index into np.where(..), offset added, expression of the exclusive stop). -/",
+        "def startsBuild : List (String × Nat × Nat × Nat × String) := ["
+        + ", ".join(f"({_lean_str(a)}, {b}, {c}, {d}, {_lean_str(e)})" for a, b, c, d, e in builds) + "]",
+        "/-- normalised bodies of the modelled .py functions (locals alpha-renamed, messages dropped). -/",
+        "def pyBodies : List (String × List String) := [\n  "
+        + ",\n  ".join(f"({_lean_str(n)}, {_lean_strs(b)})" for n, b in bodies) + "]",
+        "/-- code lines of the modelled bonds.pyx functions (comments / docstrings dropped). -/",
+        "def pyxBodies : List (String × List String) := [\n  "
+        + ",\n  ".join(f"({_lean_str(n)}, {_lean_strs(b)})" for n, b in pyx_bodies) + "]",
         "end BiotiteModel.Gen.C17", ""]
     return {"BiotiteModel/Gen/C17.lean": "\n".join(body)}
 
